@@ -212,7 +212,7 @@ def run(ctx: Ctx) -> int:
             fn=fn,
             details={"from": fmt(frm), "to": fmt(to)},
         )
-    ctx.floor("C04.a", n_ranked, FLOOR_SITES)
+    ctx.floor("C04.a", n_ranked, FLOOR_SITES, defer=True)  # a merge site replaced by a bare update is reported by C04.f
 
     # ---- inside merge_config -------------------------------------------------
     mc = ctx.func("_core:ArgumentParser.merge_config")
